@@ -1251,6 +1251,21 @@ func (w *world) run() {
 				over = true
 			}
 		}
+		if w.gstPassed && !w.byzDelivered {
+			// no faulty message was ever delivered: eight rounds beyond the highest round at stabilisation is already beyond the bound TLC
+			// checks (+6); there is no point in recording the run any further
+			var gmax uint64
+			for _, r := range w.gstRounds {
+				if r > gmax {
+					gmax = r
+				}
+			}
+			for _, id := range w.honest {
+				if !w.hosts[id].done && !w.hosts[id].crashed && w.parts[id].Progress().ID == 0 && w.parts[id].Progress().Round > gmax+8 {
+					over = true
+				}
+			}
+		}
 		if over {
 			reason = "maxround"
 			break
